@@ -96,7 +96,7 @@ def find_offsets(whole_rows, parts_rows, T):
 
 
 def record_pipeline(b, world, intended, *, inner_fraction, ms=(0,), ks=(), radius=None, want=None,
-                    traj=None, floating='Li'):
+                    traj=None, floating='Li', overlap=False):
     """Run the pipeline on the real code; returns list of records (dicts) for TraceSites."""
     recs = []
     want = want or {'Hist', 'Events', 'Prev', 'Next', 'Jumps', 'Mono', 'Matrix', 'Counter', 'Edges', 'Occ',
@@ -118,6 +118,8 @@ def record_pipeline(b, world, intended, *, inner_fraction, ms=(0,), ks=(), radiu
     T, A, S = len(H), len(H[0]), len(world.structure)
     if intended is not None:
         add('Hist', hist=H, intended=intended)
+    elif overlap:
+        add('Hist', hist=H, overlap=True)
     else:
         add('Hist', hist=H)
     ev_rows = rows_of(tr.events, EV_COLS)
@@ -149,6 +151,21 @@ def record_pipeline(b, world, intended, *, inner_fraction, ms=(0,), ks=(), radiu
         add('Matrix', kind='jumps', m=m, S=S, M=np.asarray(j.matrix()).astype(int).tolist(), njumps=int(j.n_jumps))
         cnt = j.counter()
         add('Counter', m=m, labels=lab_seq, counts=[[codes[a], codes[c], int(n)] for (a, c), n in sorted(cnt.items())])
+        if world.rng.random() < 0.5:
+            # the documented hook: a user-supplied conversion method; here the stock one with the columns of its table in
+            # another order and an extra leading column (a DataFrame is addressed by column NAME)
+            from gemdat.jumps import Jumps, _generic_transitions_to_jumps
+            order = [str(c) for c in world.rng.permutation(J_COLS)]
+
+            def conv(transitions, *, minimal_residence=0, _order=order):
+                df = _generic_transitions_to_jumps(transitions, minimal_residence=minimal_residence)
+                df = df[_order].copy()
+                df.insert(0, 'note', 7)
+                return df
+            j2 = Jumps(tr, conversion_method=conv, minimal_residence=m)
+            add('Matrix', kind='jumps', m=m, S=S, M=np.asarray(j2.matrix()).astype(int).tolist(), njumps=int(j2.n_jumps), when='custom-table')
+            cnt2 = j2.counter()
+            add('Counter', m=m, labels=lab_seq, counts=[[codes[a], codes[c], int(n)] for (a, c), n in sorted(cnt2.items())], when='custom-table')
         if 'Edges' in want:
             g = j.to_graph()
             add('Edges', m=m, edges=[[int(u), int(v)] for u, v in g.edges])
